@@ -353,6 +353,8 @@ def binop(eng, st, op, a, b, node):
         e = z3.simplify(z3.Select(eng.list_arr(st, a), 0))
         cnt = z3.If(b.t > 0, b.t, z3.IntVal(0))
         return eng.mk_list(st, a.k[1], cnt, z3.K(I, e))
+    if ak == 'arr' and bk == 'arr' and isinstance(op, ast.BitAnd) and a.k[2] == 'bool' and b.k[2] == 'bool':
+        return arr_bool_and(eng, st, a, b, node)
     if ak == 'arr' or bk == 'arr':
         if isinstance(op, ast.MatMult):
             return matmul(eng, st, a, b, node)
@@ -1429,3 +1431,220 @@ def m_random_sample(eng, st, args, kw, node):
                         patterns=[z3.MultiPattern(z3.Select(out, i), z3.Select(out, j))]))
     st.ghost['effect:random'] = True
     return eng.mk_list(st, 'int', k, out)
+
+
+# ---------------------------------------------------------------- bool-array &, inv, det, log
+def arr_bool_and(eng, st, a, b, node):
+    return arr_map(eng, st, [a, b], lambda xs: z3.And(xs[0], xs[1]), 'bool')
+
+
+@model('numpy.linalg.inv')
+def np_inv(eng, st, args, kw, node):
+    v = args[0]
+    if not (isinstance(v.k, tuple) and v.k[0] == 'arr' and v.k[1] == 2):
+        raise Unsupported("inv form")
+    used(eng, "np.linalg.inv(A): fresh array of the same shape, an uninterpreted function of the contents (singular input not modelled)")
+    sh = eng.arr_shape(st, v)
+    f = eng.uf('inv_uf', z3.ArraySort(I, I, R), I, z3.ArraySort(I, I, R))
+    return eng.mk_arr(st, 2, 'real', [sh[0], sh[1]], f(eng.arr_data(st, v), sh[0]))
+
+
+DENORM_MIN = z3.Q(1, 2 ** 1074)
+
+
+def real_det(eng, st, v):
+    f = eng.uf('det_uf', z3.ArraySort(I, I, R), I, R)
+    d = f(eng.arr_data(st, v), eng.arr_shape(st, v)[0])
+    spd = eng.uf('is_spd', z3.ArraySort(I, I, R), I, B)
+    # mathematics: a symmetric positive-definite matrix has a positive determinant
+    st.assume(z3.Implies(spd(eng.arr_data(st, v), eng.arr_shape(st, v)[0]), d > 0))
+    return d
+
+
+@model('numpy.linalg.det')
+def np_det(eng, st, args, kw, node):
+    """ASSUMED, with the honest IEEE range clause: the double returned is the real determinant, except that a
+    magnitude below the smallest subnormal (2**-1074) is returned as 0.0 (underflow).  Overflow to inf is the
+    mirror image and is reported by the same obligation at the np.log call (log of inf is inf: not finite)."""
+    v = args[0]
+    if not (isinstance(v.k, tuple) and v.k[0] == 'arr' and v.k[1] == 2):
+        raise Unsupported("det form")
+    used(eng, "np.linalg.det(A) = real determinant, flushed to 0.0 when its magnitude is below 2**-1074 (IEEE underflow); "
+              "det of an SPD matrix is positive over the reals")
+    d = real_det(eng, st, v)
+    r = z3.Real(fresh_name('fl_det'))
+    st.assume(r == z3.If(z3.And(d < DENORM_MIN, d > -DENORM_MIN), z3.RealVal(0), d))
+    return vreal(r)
+
+
+@model('numpy.linalg.slogdet')
+def np_slogdet(eng, st, args, kw, node):
+    v = args[0]
+    if not (isinstance(v.k, tuple) and v.k[0] == 'arr' and v.k[1] == 2):
+        raise Unsupported("slogdet form")
+    used(eng, "np.linalg.slogdet(A) = (sign, log|det A|) with log|det A| a finite real whenever det A != 0 (no under/overflow: "
+              "computed from the LU factors); equals logdet_uf(A)")
+    d = real_det(eng, st, v)
+    f = eng.uf('logdet_uf', z3.ArraySort(I, I, R), I, R)
+    sign = z3.If(d > 0, z3.RealVal(1), z3.If(d < 0, z3.RealVal(-1), z3.RealVal(0)))
+    return vtuple([vreal(sign), vreal(f(eng.arr_data(st, v), eng.arr_shape(st, v)[0]))])
+
+
+@model('numpy.log')
+def np_log(eng, st, args, kw, node):
+    """np.log(x): finite only for x > 0 (log(0) = -inf, log(<0) = nan).  The obligation is finiteness."""
+    v = args[0]
+    x = to_real(v)
+    used(eng, "np.log(x) for x > 0 is the real logarithm ln_uf(x); x <= 0 gives -inf/nan (obligation: argument positive)")
+    if not st.spec:
+        eng.oblige(st, "finite:log-argument-positive@L%d" % node.lineno, 'noexc', x > 0, node)
+        st.assume(x > 0)
+    f = eng.uf('ln_uf', R, R)
+    return vreal(f(x))
+
+
+MODELS['math.log'] = np_log
+
+
+@model('numpy.abs')
+def np_abs(eng, st, args, kw, node):
+    v = args[0]
+    if isinstance(v.k, tuple) and v.k[0] == 'arr':
+        return arr_map(eng, st, [v], lambda xs: z3.If(xs[0] >= 0, xs[0], -xs[0]), v.k[2])
+    return m_abs(eng, st, args, kw, node)
+
+
+@model('numpy.trace')
+def np_trace(eng, st, args, kw, node):
+    v = args[0]
+    if not (isinstance(v.k, tuple) and v.k[0] == 'arr' and v.k[1] == 2):
+        raise Unsupported("trace form")
+    used(eng, "np.trace(A) = sum of the diagonal (rsum of the diagonal entries)")
+    d = eng.arr_data(st, v)
+    n = eng.arr_shape(st, v)[0]
+    i = z3.Int(fresh_name('i'))
+    _CUR[0] = st
+    diag = named_array(eng, 'diag_of', [d], [i], lambda a: z3.Select(d, a, a))
+    return vreal(rsum(eng, st, diag, n)(diag, n))
+
+
+@model('numpy.dot')
+def np_dot(eng, st, args, kw, node):
+    return matmul(eng, st, args[0], args[1], node)
+
+
+@model('numpy.asarray', 'numpy.array')
+def np_asarray(eng, st, args, kw, node):
+    """np.asarray / np.array of a Python list of equal-shape arrays or of floats: stacks along a new first axis."""
+    v = args[0]
+    if isinstance(v.k, tuple) and v.k[0] == 'list' and v.k[1] == 'real':
+        used(eng, "np.asarray/np.array(list of float): fresh 1-D array with the same elements")
+        return eng.mk_arr(st, 1, 'real', [eng.list_len(st, v)], eng.list_arr(st, v))
+    if isinstance(v.k, tuple) and v.k[0] == 'list' and isinstance(v.k[1], tuple) and v.k[1][0] == 'arr':
+        used(eng, "np.asarray(list of equal-shape arrays): a stacked array; element k is a copy of the k-th list entry "
+                  "(kept as a list of arrays in the model)")
+        return Val(('stack', v.k[1]), v.t)
+    raise Unsupported("np.asarray of %r" % (v.k,))
+
+
+# ---------------------------------------------------------------- multiprocessing.Pool (ASSUMED contract)
+TASK_FIELDS = dict(a0='arr2[real]', a1='real', a2='int', a3='int', rho='real', rho_update='opaque:callable',
+                   max_iterations='int', relative_tolerance='real', absolute_tolerance='real', verbose='bool',
+                   failed='bool', pool='opaque:pool', fn_is_admm='bool')
+
+
+@method('opaque:pool', 'apply_async')
+def pool_apply_async(eng, st, base, args, kw, node):
+    """ASSUMED: pool.apply_async(f, args, kwargs) returns a task handle; task.get() returns f(*args, **kwargs) or re-raises
+    what f raised, whatever the pool size, the timing and the other tasks.  The handle records f's arguments (ghost fields);
+    `failed` is the (unknown) outcome of the worker."""
+    from . import spec as S
+    from .kinds import parse_kind
+    used(eng, "multiprocessing.Pool.apply_async(f, args, kwargs).get() == f(*args, **kwargs), or re-raises what f raised; "
+              "independent of pool size, timing and other tasks")
+    if 'AsyncTask' not in S.CLASSES:
+        S.classschema('AsyncTask', '<multiprocessing.pool.AsyncResult>', TASK_FIELDS)
+    fn, a, k = args[0], args[1], args[2]
+    t = t0 = tn = None
+    dotted = eng.resolve_callable(fn.py[1], st) if fn.k == 'func' and fn.py[0] == 'named' else None
+    if a.k != ('pylist',) or k.k != ('pydict',) or len(a.py) != 4:
+        raise Unsupported("apply_async argument form")
+    r = eng.new_ref(st)
+    task = Val(('obj', 'AsyncTask'), r)
+    from .calls import coerce
+    vals = dict(a0=a.py[0], a1=a.py[1], a2=a.py[2], a3=a.py[3], pool=base,
+                fn_is_admm=vbool(dotted == ('contract', 'fast_ticc.admm.front_end.admm_optimize_theta')))
+    for name in ('rho', 'rho_update', 'max_iterations', 'relative_tolerance', 'absolute_tolerance', 'verbose'):
+        if name not in k.py:
+            raise Unsupported("apply_async kwargs: missing " + name)
+        vals[name] = k.py[name]
+    if set(k.py) - set(vals):
+        raise Unsupported("apply_async kwargs: unexpected " + str(set(k.py) - set(vals)))
+    for name, v in vals.items():
+        key, fk = eng.field_key('AsyncTask', name)
+        st.heap.wr(key, r, coerce(eng, st, v, fk, 'task.' + name).t)
+    return task
+
+
+def task_get(eng, st, task, node):
+    """task.get(): the ASSUMED Pool contract -- returns admm_optimize_theta(*recorded args) (the callee's CONTRACT is
+    applied, so its preconditions are obligations here), or raises WorkerError iff the worker failed."""
+    from . import spec as S
+    from .calls import apply_contract
+    fld = lambda n: eng.get_attr(st, task, n, node)
+    failed = fld('failed').t
+    if 'WorkerError' in eng.frame.exc_ok or any(('WorkerError' in h or 'Exception' in h or 'BaseException' in h) for h in eng.frame.try_handlers):
+        st.pending_raises.append((failed, 'WorkerError', len(st.pc)))
+    else:
+        eng.oblige(st, "noexc:WorkerError@L%d" % node.lineno, 'noexc', z3.Not(failed), node)
+    st.assume(z3.Not(failed))
+    st.assume(fld('fn_is_admm').t)
+    q = 'fast_ticc.admm.front_end.admm_optimize_theta'
+    c = S.CONTRACTS[q]
+    mod, fdef = eng.repo.find_function(q)
+    res = apply_contract(eng, c, mod, fdef, [fld('a0'), fld('a1'), fld('a2'), fld('a3')],
+                         dict(rho=fld('rho'), rho_update=fld('rho_update'), max_iterations=fld('max_iterations'),
+                              relative_tolerance=fld('relative_tolerance'), absolute_tolerance=fld('absolute_tolerance'),
+                              verbose=fld('verbose')), st, node)
+    # determinism of the worker: the result is a function of the task (hence of its recorded arguments) only
+    f = eng.uf('task_theta', I, z3.ArraySort(I, R))
+    theta = eng.get_attr(st, res, 'theta', node)
+    st.assume(eng.arr_data(st, theta) == f(task.t))
+    return res
+
+
+@method('opaque:pool', 'close')
+def pool_close(eng, st, base, args, kw, node):
+    st.env['_pool_closed'] = vbool(True)
+    return NONE
+
+
+@method('opaque:pool', 'join')
+def pool_join(eng, st, base, args, kw, node):
+    st.env['_pool_joined'] = vbool(True)
+    return NONE
+
+
+@method('opaque:pool', 'terminate')
+def pool_terminate(eng, st, base, args, kw, node):
+    st.env['_pool_closed'] = vbool(True)
+    return NONE
+
+
+@model('multiprocessing.Pool')
+def mp_pool(eng, st, args, kw, node):
+    used(eng, "multiprocessing.Pool(processes=p): worker processes live until close()+join() or terminate(); "
+              "garbage collection is not a release guarantee")
+    r = eng.new_ref(st)
+    st.env['_pool_created'] = vbool(True)
+    st.env['_pool_closed'] = vbool(False)
+    st.env['_pool_joined'] = vbool(False)
+    return Val(('opaque', 'pool'), r)
+
+
+@model('os.environ.get')
+def os_environ_get(eng, st, args, kw, node):
+    used(eng, "os.environ.get(name, None): None or a string (environment read: an effect, see C14)")
+    st.ghost['effect:env'] = True
+    present = z3.Bool(fresh_name('env_present'))
+    return Val(('opaque', 'envstr'), z3.If(present, z3.IntVal(1), z3.IntVal(0)))
